@@ -136,6 +136,31 @@ func bindLoops(fn *ssa.Function, loops []*LoopInfo, fset *token.FileSet, src []b
 			li.Sig = loopSigText(fset, src, al[best])
 		}
 	}
+	// a `goto` to a label in front of a loop statement makes a second, enclosing CFG loop that maps to
+	// the same statement: the larger one is the goto loop and carries no loop contract (havoc, invariant true)
+	byK := map[int][]*LoopInfo{}
+	for _, li := range loops {
+		if li.K >= 0 {
+			byK[li.K] = append(byK[li.K], li)
+		}
+	}
+	for _, ls := range byK {
+		if len(ls) < 2 {
+			continue
+		}
+		small := ls[0]
+		for _, li := range ls[1:] {
+			if len(li.Body) < len(small.Body) {
+				small = li
+			}
+		}
+		for _, li := range ls {
+			if li != small {
+				li.K = -2
+				li.Sig = "goto loop around: " + li.Sig
+			}
+		}
+	}
 }
 
 // rootAlloc follows FieldAddr/IndexAddr chains to the root address value.
